@@ -232,6 +232,8 @@ fn vfmt_disp<W: VWrite, T: VDisp + ?Sized>(w: &mut W, x: &T) ensures final(w).tr
     more_defaults(u)
     u.emit("}\n")
     mysql_table(u)
+    postgres_table(u)
+    index_fk(u)
     u.emit("} // verus!\nfn main() {}\n")
 
 
@@ -358,17 +360,17 @@ pub open spec fn alter_events_mysql(a: TableAlterStatement) -> Seq<Ev> {
 """
 
 
-def alter_fn(u, path, block, owner, listfn, optfn, extra_rules=()):
+def alter_fn(u, path, block, owner, listfn, optfn, extra_rules=(), flag="first", more_loops=(), more_proofs=None, more_req=""):
     """the ALTER TABLE renderer of a backend: keyword, table, then every option once, in call order, comma separated"""
     u.fn(path, block, "prepare_table_alter_statement", props=P, key="%s::prepare_table_alter_statement" % owner, vpath="%s::prepare_table_alter_statement" % owner, prefix="#[verifier::rlimit(80)]\n    ",
          rules=[r_dynw, make_r_sub("R-panic", r'panic!\("No alter option found"\)', "vpanic()"), r_fold, r_semi, r_iden] + list(extra_rules) + [r_fmt],
-         spec="requires alter.options@.len() > 0,      // panics otherwise (`No alter option found`)\nensures\n    // every alter option exactly once, in call order, comma separated, each in the dialect's form\n    final(sql).tr() == old(sql).tr() + alter_events_%s(*alter)," % optfn,
-         loops=["invariant it1.index@ <= alter.options@.len(), first == (it1.index@ == 0), sql.tr() == ta + %s(alter.options@.subrange(0, it1.index@ as int))," % listfn],
-         proofs={"body-start": "let ghost t0 = sql.tr();",
-                 "before#1:let mut first = true;": "let ghost ta = sql.tr();\nproof { lemma_%s_empty(alter.options@); assert(ta + emp() =~= ta); }" % listfn,
+         spec="requires alter.options@.len() > 0,      // panics otherwise (`No alter option found`)\n" + more_req + "ensures\n    // every alter option exactly once, in call order, comma separated, each in the dialect's form\n    final(sql).tr() == old(sql).tr() + alter_events_%s(*alter)," % optfn,
+         loops=["invariant it1.index@ <= alter.options@.len(), %s == (it1.index@ == 0), sql.tr() == ta + %s(alter.options@.subrange(0, it1.index@ as int))," % (flag, listfn)] + list(more_loops),
+         proofs=dict({"body-start": "let ghost t0 = sql.tr();",
+                 "before#1:let mut %s = true;" % flag: "let ghost ta = sql.tr();\nproof { lemma_%s_empty(alter.options@); assert(ta + emp() =~= ta); }" % listfn,
                  "loop1-start": "let ghost tl = sql.tr(); let ghost opt_ = *option;",
                  "loop1-end": "proof { lemma_%s_step(alter.options@, it1.index@ as int); assert(sql.tr() =~= (if it1.index@ == 0 { tl } else { tl.push(lit(\", \")) }) + alter_opt_%s(opt_)); }" % (listfn, optfn),
-                 "body-end": "proof { lemma_%s_empty(alter.options@); assert(sql.tr() =~= t0 + alter_events_%s(*alter)); }" % (listfn, optfn)})
+                 "body-end": "proof { lemma_%s_empty(alter.options@); assert(sql.tr() =~= t0 + alter_events_%s(*alter)); }" % (listfn, optfn)}, **(more_proofs or {})))
 
 
 def mysql_table(u):
@@ -398,4 +400,416 @@ def mysql_table(u):
                           make_r_sub("R-attr", r"foreign_key\.to_owned\(\)", "Self::vclone_fk(foreign_key)")])
     simple(u, MT, B, "prepare_table_rename_statement", 'seq![lit("RENAME TABLE ")] + (match rename.from_name { Some(t) => seq![Ev::TRef(t)], None => emp() }) + seq![lit(" TO ")] + (match rename.to_name { Some(t) => seq![Ev::TRef(t)], None => emp() })',
            [r_dynw, r_fmt], "MysqlQueryBuilder::prepare_table_rename_statement", key="MysqlQueryBuilder::prepare_table_rename_statement", comment="RENAME TABLE old TO new")
+    u.emit("}\n")
+
+
+def cat_fns(name, ty, mk):
+    """concatenation of per-item event sequences: name(xs) = mk(xs[0]) + mk(xs[1]) + ..  (first order, with step / empty lemmas)"""
+    return """pub open spec fn %(n)s(xs: Seq<%(t)s>) -> Seq<Ev>
+    decreases xs.len()
+{ if xs.len() == 0 { emp() } else { %(n)s(xs.drop_last()) + %(last)s } }
+pub proof fn lemma_%(n)s_step(xs: Seq<%(t)s>, i: int)
+    requires 0 <= i < xs.len()
+    ensures %(n)s(xs.subrange(0, i + 1)) == %(n)s(xs.subrange(0, i)) + %(ith)s
+{
+    assert(xs.subrange(0, i + 1).drop_last() =~= xs.subrange(0, i));
+    assert(xs.subrange(0, i + 1).last() == xs[i]);
+}
+pub proof fn lemma_%(n)s_empty(xs: Seq<%(t)s>)
+    ensures %(n)s(xs.subrange(0, 0)) == emp(), xs.subrange(0, xs.len() as int) == xs
+{
+    assert(xs.subrange(0, 0) =~= Seq::<%(t)s>::empty());
+    assert(xs.subrange(0, xs.len() as int) =~= xs);
+}
+""" % {"n": name, "t": ty, "last": mk.replace("%s", "xs.last()"), "ith": mk.replace("%s", "xs[i]")}
+
+
+PG_SPEC = r"""
+// ---- PostgreSQL ----------------------------------------------------------------------------------------------------------------
+pub open spec fn has_autoinc(specs: Seq<ColumnSpec>) -> bool { exists|i: int| 0 <= i < specs.len() && #[trigger] specs[i] is AutoIncrement }
+// auto-increment takes the dialect's form: PostgreSQL has no AUTO_INCREMENT keyword, the column's TYPE becomes a serial type
+// (PostgreSQL 8.1.4: smallserial = 2 bytes, serial = 4 bytes, bigserial = 8 bytes)
+pub open spec fn coltype_part_pg(cd: ColumnDef) -> Seq<Ev> {
+    match cd.types { Some(t) => seq![lit(" "), if has_autoinc(cd.spec@) { Ev::Serial(t) } else { Ev::ColType(t) }], None => emp() }
+}
+pub open spec fn serial_name(t: ColumnType) -> Seq<char> {
+    match t { ColumnType::SmallInteger => "smallserial"@, ColumnType::Integer => "serial"@, _ => "bigserial"@ }
+}
+// column_name data_type [column_constraint ...]: AutoIncrement went into the type, COMMENT is not column syntax in PostgreSQL
+pub open spec fn colspec_pg(s: ColumnSpec) -> Seq<Ev> {
+    if (s is AutoIncrement) || (s is Comment) { emp() } else { seq![lit(" "), Ev::ColSpec(s)] }
+}
+pub open spec fn coldef_events_pg(cd: ColumnDef) -> Seq<Ev> {
+    seq![Ev::Iden(cd.name), Ev::ColTypePart(cd)] + l_specs_pg(cd.spec@)
+}
+// ALTER TABLE name action [, ... ]  (PostgreSQL ALTER TABLE).  MODIFY of a column is a LIST of actions, comma separated:
+//   ALTER COLUMN c TYPE data_type [USING expr] | ALTER COLUMN c {SET | DROP} NOT NULL | ALTER COLUMN c SET DEFAULT expr
+//   | ADD table_constraint   (UNIQUE (c) | PRIMARY KEY (c) | CHECK (expr))
+// specifications with no ALTER form (AutoIncrement, Generated, Comment) write nothing - and no separator either
+pub open spec fn pg_writes(s: ColumnSpec) -> bool { !((s is AutoIncrement) || (s is Generated) || (s is Comment)) }
+pub open spec fn pg_action(cd: ColumnDef, s: ColumnSpec) -> Seq<Ev> {
+    match s {
+        ColumnSpec::Null => seq![lit("ALTER COLUMN "), Ev::Iden(cd.name), lit(" DROP NOT NULL")],
+        ColumnSpec::NotNull => seq![lit("ALTER COLUMN "), Ev::Iden(cd.name), lit(" SET NOT NULL")],
+        ColumnSpec::Default(v) => seq![lit("ALTER COLUMN "), Ev::Iden(cd.name), lit(" SET DEFAULT "), Ev::Expr(v)],
+        ColumnSpec::UniqueKey => seq![lit("ADD UNIQUE ("), Ev::Iden(cd.name), lit(")")],
+        ColumnSpec::PrimaryKey => seq![lit("ADD PRIMARY KEY ("), Ev::Iden(cd.name), lit(")")],
+        ColumnSpec::Check(c) => seq![lit("ADD "), Ev::Check(c)],
+        ColumnSpec::Extra(x) => seq![Ev::Text(x@)],
+        ColumnSpec::Using(e) => seq![lit(" USING "), Ev::Expr(e)],       // attaches to the preceding TYPE action: no separator
+        _ => emp(),
+    }
+}
+pub open spec fn pg_wrote(cd: ColumnDef, n: int) -> bool
+    decreases n
+{ if n <= 0 { cd.types is Some } else { pg_wrote(cd, n - 1) || pg_writes(cd.spec@[n - 1]) } }
+pub open spec fn pg_mod_upto(cd: ColumnDef, n: int) -> Seq<Ev>
+    decreases n
+{
+    if n <= 0 { match cd.types { Some(t) => seq![lit("ALTER COLUMN "), Ev::Iden(cd.name), lit(" TYPE "), Ev::ColType(t)], None => emp() } }
+    else {
+        pg_mod_upto(cd, n - 1)
+            + (if pg_writes(cd.spec@[n - 1]) && !(cd.spec@[n - 1] is Using) && pg_wrote(cd, n - 1) { seq![lit(", ")] } else { emp() })
+            + pg_action(cd, cd.spec@[n - 1])
+    }
+}
+pub open spec fn alter_opt_pg(o: TableAlterOption) -> Seq<Ev> {
+    match o {
+        TableAlterOption::AddColumn(a) => seq![lit("ADD COLUMN ")] + (if a.if_not_exists { seq![lit("IF NOT EXISTS ")] } else { emp() }) + coldef_events_pg(a.column),
+        TableAlterOption::ModifyColumn(cd) => pg_mod_upto(cd, cd.spec@.len() as int),
+        TableAlterOption::RenameColumn(f, t) => seq![lit("RENAME COLUMN "), Ev::Iden(f), lit(" TO "), Ev::Iden(t)],
+        TableAlterOption::DropColumn(c) => seq![lit("DROP COLUMN "), Ev::Iden(c)],
+        TableAlterOption::DropForeignKey(n) => seq![Ev::FkDropNamed(n)],
+        TableAlterOption::AddForeignKey(fk) => seq![Ev::FkCreate(ForeignKeyCreateStatement { foreign_key: fk }, Mode::TableAlter)],
+    }
+}
+pub open spec fn alter_events_pg(a: TableAlterStatement) -> Seq<Ev> {
+    seq![lit("ALTER TABLE ")] + (match a.table { Some(t) => seq![Ev::TRef(t), lit(" ")], None => emp() }) + l_alter_pg(a.options@)
+}
+"""
+
+
+def r_continue(text, ctx):
+    """R-continue: in a `for` body, `if let P = x { continue; } REST`  ->  `if let P = x { } else { REST }` (this Verus has no `continue` in
+    for-loops; skipping the rest of the body is what the else branch says).  Applied repeatedly to leading guards."""
+    n = 0
+    while True:
+        m = re.search(r"if let ([^{}=]+) = ([a-z_]+) \{\s*continue;\s*\}", text)
+        if not m:
+            break
+        # REST extends to the end of the enclosing block
+        toks = rl.lex(text)
+        depth, end = 0, None
+        for t in toks:
+            if t.start < m.end():
+                continue
+            if t.kind == "punct" and t.text in rl.OPEN:
+                depth += 1
+            elif t.kind == "punct" and t.text in rl.CLOSE:
+                if depth == 0:
+                    end = t.start
+                    break
+                depth -= 1
+        if end is None:
+            raise rl.Unsupported(ctx.key + ": R-continue: no enclosing block")
+        rest = text[m.end():end]
+        text = text[:m.start()] + "if let %s = %s { /*skip*/ } else {%s}\n        " % (m.group(1), m.group(2), rest) + text[end:]
+        n += 1
+    if n == 0:
+        raise rl.LostAnchor(ctx.key + ": R-continue: no `if let .. { continue; }` guard")
+    ctx.app("R-continue", "%d guard(s) `if let P = x { continue; }`" % n, "if let P = x { } else { rest of the loop body }")
+    return text
+
+
+def closure_fn(u, path, block, fn_name, let_pat, new_name, owner, **kw):
+    """R-closure: a closure bound by `let f = |params| { BODY };` inside fn `fn_name` is verified as a function of its parameters
+    (+ &self, the only capture); registered as a virtual source so that the usual extraction applies to its text."""
+    src = u.src(path)
+    blk = rl.find_block(path, src, block)[0]
+    it = rl.find_fn(path, src, blk, fn_name)
+    i = it.text.find(let_pat)
+    if i < 0:
+        raise rl.LostAnchor("%s: closure `%s` not found in fn %s" % (path, let_pat, fn_name))
+    m = re.match(r"let \w+ = \|([^|]*)\|\s*", it.text[i:])
+    if not m:
+        raise rl.LostAnchor("%s: `%s` is not a closure binding" % (path, let_pat))
+    rest = it.text[i + m.end():]
+    toks = rl.code_toks(rl.lex(rest))
+    if toks[0].text != "{":
+        raise rl.Unsupported("closure body is not a block")
+    close = rl.match_close(toks, 0)
+    body = rest[toks[0].start:toks[close].end]
+    vp = "%s#closure(%s)@%d" % (path, fn_name, src.count("\n", 0, it.start + i) + 1)
+    u._src_cache[vp] = "impl %s {\n    fn %s(&self, %s) %s\n}\n" % (owner, new_name, m.group(1).strip(), body)
+    u.fn(vp, "impl " + owner, new_name, vpath="%s::%s" % (owner, new_name), **kw)
+
+
+def postgres_table(u):
+    PT = "src/backend/postgres/table.rs"
+    B = "impl TableBuilder for PostgresQueryBuilder"
+    BI = "impl PostgresQueryBuilder"
+    u.spec(cat_fns("l_specs_pg", "ColumnSpec", "colspec_pg(%s)") + list_fns("l_alter_pg", "TableAlterOption", "alter_opt_pg(%s)", "multi"), "schema::pg-lists", props=P)
+    u.spec(PG_SPEC, "schema::pg-spec", props=P)
+    u.emit("pub struct PostgresQueryBuilder;\nimpl PostgresQueryBuilder {\n")
+    u.spec(abstract("prepare_iden", "x: &DynIden", "Ev::Iden(*x)") + abstract("prepare_column_type", "x: &ColumnType", "Ev::ColType(*x)") + abstract("prepare_column_spec", "x: &ColumnSpec", "Ev::ColSpec(*x)")
+           + abstract("prepare_column_auto_increment", "x: &ColumnType", "Ev::Serial(*x)", extra_req="requires (*x is SmallInteger) || (*x is Integer) || (*x is BigInteger) ")
+           + abstract("prepare_table_ref_table_stmt", "x: &TableRef", "Ev::TRef(*x)") + abstract("vcall_type_writer", "x: &ColumnDef", "Ev::ColTypePart(*x)")
+           + abstract("prepare_column_type_check_auto_increment", "x: &ColumnDef", "Ev::ColTypePart(*x)")
+           + """    // R-strfn (trusted): `.iter().position(|s| matches!(s, ColumnSpec::AutoIncrement))` is Some iff some element is AutoIncrement; `.iter().any(..)` likewise
+    #[verifier::external_body]
+    fn vposition_autoinc(v: &Vec<ColumnSpec>) -> (r: Option<usize>) ensures r is Some <==> has_autoinc(v@) { unimplemented!() }
+    #[verifier::external_body]
+    fn vany_autoinc(v: &Vec<ColumnSpec>) -> (r: bool) ensures r == has_autoinc(v@) { unimplemented!() }
+""", "schema::abstract-sub-renderers(postgres table)", props=P)
+    r_pos = make_r_sub("R-strfn", r"column_def\s*\.spec\s*\.iter\(\)\s*\.position\(\|s\| matches!\(s, ColumnSpec::AutoIncrement\)\)", "Self::vposition_autoinc(&column_def.spec)")
+    r_any = make_r_sub("R-strfn", r"column_def\s*\.spec\s*\.iter\(\)\s*\.any\(\|v\| matches!\(v, ColumnSpec::AutoIncrement\)\)", "Self::vany_autoinc(&column_def.spec)")
+    # the serial types
+    u.fn(PT, BI, "prepare_column_auto_increment", rename="prepare_column_auto_increment_impl", props=P, key="PostgresQueryBuilder::prepare_column_auto_increment", vpath="PostgresQueryBuilder::prepare_column_auto_increment_impl",
+         rules=[r_dynw, r_semi, make_r_sub("R-panic", r'unimplemented!\("\{:\?\} doesn\'t support auto increment", column_type\)', "vpanic()"), r_fmt, r_unit_tail],
+         spec="requires (*column_type is SmallInteger) || (*column_type is Integer) || (*column_type is BigInteger),     // unimplemented!() otherwise\nensures\n    // the serial type of the same width\n    final(sql).tr() == old(sql).tr().push(Ev::Lit(serial_name(*column_type))),")
+    simple(u, PT, BI, "prepare_column_type_check_auto_increment", "coltype_part_pg(*column_def)", [r_dynw, r_pos, r_semi, r_fmt], "PostgresQueryBuilder::prepare_column_type_check_auto_increment_impl",
+           key="PostgresQueryBuilder::prepare_column_type_check_auto_increment", rename="prepare_column_type_check_auto_increment_impl",
+           requires="has_autoinc(column_def.spec@) && column_def.types is Some ==> (column_def.types->Some_0 is SmallInteger) || (column_def.types->Some_0 is Integer) || (column_def.types->Some_0 is BigInteger)",
+           comment="one type: the serial type when the column auto-increments, its declared type otherwise")
+    closure_fn(u, PT, B, "prepare_table_alter_statement", "let f = |column_def: &ColumnDef, sql: &mut dyn SqlWriter|", "alter_add_column_type_writer", "PostgresQueryBuilder", props=P,
+               key="PostgresQueryBuilder::prepare_table_alter_statement[closure f of ADD COLUMN]", rules=[r_dynw, r_any, r_semi, r_fmt, r_unit_tail],
+               spec="requires has_autoinc(column_def.spec@) && column_def.types is Some ==> (column_def.types->Some_0 is SmallInteger) || (column_def.types->Some_0 is Integer) || (column_def.types->Some_0 is BigInteger),\nensures final(sql).tr() == old(sql).tr() + coltype_part_pg(*column_def),",
+               proofs={"body-start": "let ghost t0 = sql.tr();", "body-end": "proof { assert(sql.tr() =~= t0 + coltype_part_pg(*column_def)); }"})
+    # prepare_column_def: the closure only forwards to prepare_column_type_check_auto_increment
+    simple(u, PT, B, "prepare_column_def", "coldef_events_pg(*column_def)",
+           [r_dynw, make_r_sub("R-closure", r"let f = \|column_def: &ColumnDef, sql: &mut W\| \{\s*self\.prepare_column_type_check_auto_increment\(column_def, sql\);\s*\};", ""),
+            make_r_sub("R-closure", r"self\.prepare_column_def_common\(column_def, sql, f\)", "self.prepare_column_def_common(column_def, sql)")],
+           "PostgresQueryBuilder::prepare_column_def_impl", key="PostgresQueryBuilder::prepare_column_def", rename="prepare_column_def_impl")
+    u.spec(abstract("prepare_column_def_common", "x: &ColumnDef", "Ev::ColDef(*x)").replace("ensures final(sql).tr() == old(sql).tr().push(Ev::ColDef(*x))", "ensures final(sql).tr() == old(sql).tr() + coldef_events_pg(*x)"),
+           "schema::abstract(prepare_column_def_common)", props=P)
+    simple(u, PT, BI, "prepare_column_def_common", "coldef_events_pg(*column_def)",
+           [r_dynw, make_r_sub("R-closure", r"fn prepare_column_def_common<W: VWrite, F>", "fn prepare_column_def_common<W: VWrite>"), make_r_sub("R-closure", r", f: F\)\s*where\s*F: Fn\(&ColumnDef, &mut W\),", ")"),
+            make_r_sub("R-closure", r"\bf\(column_def, sql\);", "self.vcall_type_writer(column_def, sql);"), r_iden, r_semi, r_continue, r_fmt,
+            make_r_sub("R-forghost", r"for column_spec in column_def\.spec\.iter\(\)", "for column_spec in it1: column_def.spec.iter()")],
+           "PostgresQueryBuilder::prepare_column_def_common_impl", key="PostgresQueryBuilder::prepare_column_def_common", rename="prepare_column_def_common_impl",
+           comment="name, ONE type (through the closure), then every specification but AutoIncrement / Comment, once, in declaration order",
+           loops=["invariant it1.index@ <= column_def.spec@.len(), sql.tr() == ts + l_specs_pg(column_def.spec@.subrange(0, it1.index@ as int)),"],
+           extra_proofs={"before#1:for column_spec in it1": "let ghost ts = sql.tr();\nproof { lemma_l_specs_pg_empty(column_def.spec@); assert(ts + emp() =~= ts); }",
+                         "loop1-end": "proof { lemma_l_specs_pg_step(column_def.spec@, it1.index@ as int); assert(sql.tr() =~= ts + (l_specs_pg(column_def.spec@.subrange(0, it1.index@ as int)) + colspec_pg(*column_spec))); }"},
+           pre="lemma_l_specs_pg_empty(column_def.spec@);")
+    u.spec(abstract("prepare_drop_fk_named", "x: &DynIden", "Ev::FkDropNamed(*x)") + abstract("prepare_check_constraint", "x: &SimpleExpr", "Ev::Check(*x)") + abstract("prepare_simple_expr", "x: &SimpleExpr", "Ev::Expr(*x)")
+           + abstract("prepare_foreign_key_create_statement_internal", "x: &ForeignKeyCreateStatement", "Ev::FkCreate(*x, mode)").replace("sql: &mut W)", "sql: &mut W, mode: Mode)")
+           + "    #[verifier::external_body]\n    fn vclone_fk(x: &TableForeignKey) -> (r: TableForeignKey) ensures r == *x { unimplemented!() }\n", "schema::abstract-sub-renderers(postgres alter)", props=P)
+
+    def r_drop_closure(text, ctx):
+        m = re.search(r"let f = \|column_def: &ColumnDef, sql: &mut W\| ", text)
+        if not m:
+            raise rl.LostAnchor(ctx.key + ": R-closure: `let f = |column_def, sql|` not found")
+        toks = rl.code_toks(rl.lex(text[m.end():]))
+        close = rl.match_close(toks, 0)
+        end = m.end() + toks[close].end
+        m2 = re.match(r"\s*;", text[end:])
+        ctx.app("R-closure", "let f = |column_def, sql| { .. };", "verified separately as alter_add_column_type_writer; the callee's call of it carries that contract")
+        return text[:m.start()] + text[end + m2.end():]
+    serial_ok = "(has_autoinc(%s.spec@) && %s.types is Some ==> (%s.types->Some_0 is SmallInteger) || (%s.types->Some_0 is Integer) || (%s.types->Some_0 is BigInteger))"
+    alter_fn(u, PT, B, "PostgresQueryBuilder", "l_alter_pg", "pg", flag="first_o",
+             extra_rules=[r_drop_closure, make_r_sub("R-closure", r"self\.prepare_column_def_common\(column, sql, f\)", "self.prepare_column_def_common(column, sql)"), r_qb,
+                          make_r_sub("R-arm-out", r"let mut foreign_key = TableForeignKey::new\(\);\s*foreign_key\.name\(name\.to_string\(\)\);\s*let drop = ForeignKeyDropStatement \{\s*foreign_key,\s*table: None,\s*\};\s*self\.prepare_foreign_key_drop_statement_internal\(&drop, sql, Mode::TableAlter\);",
+                                     "self.prepare_drop_fk_named(name, sql);"),
+                          make_r_sub("R-attr", r"foreign_key\.to_owned\(\)", "Self::vclone_fk(foreign_key)")],
+             more_req="    // ADD COLUMN of an auto-increment column: only the integer types have a serial form (unimplemented!() otherwise)\n    forall|i: int| 0 <= i < alter.options@.len() && (#[trigger] alter.options@[i]) is AddColumn ==> " + (serial_ok % (("alter.options@[i]->AddColumn_0.column",) * 5)) + ",\n",
+             more_loops=["invariant it2.index@ <= column_def.spec@.len(), sql.tr() == tm + pg_mod_upto(*column_def, it2.index@ as int), first == !pg_wrote(*column_def, it2.index@ as int), opt_ == TableAlterOption::ModifyColumn(*column_def),"],
+             more_proofs={"before#1:if let Some(column_type) = &column_def.types": "let ghost tm = sql.tr();",
+                          "before#1:let mut first = first;": "proof { assert(sql.tr() =~= tm + pg_mod_upto(*column_def, 0)); }",
+                          "loop2-start": "let ghost ti = sql.tr(); let ghost sp_ = *column_spec;",
+                          "loop2-end": "proof { assert(sql.tr() =~= tm + pg_mod_upto(*column_def, it2.index@ + 1)); }"})
+    simple(u, PT, B, "prepare_table_rename_statement", 'seq![lit("ALTER TABLE ")] + (match rename.from_name { Some(t) => seq![Ev::TRef(t)], None => emp() }) + seq![lit(" RENAME TO ")] + (match rename.to_name { Some(t) => seq![Ev::TRef(t)], None => emp() })',
+           [r_dynw, r_fmt], "PostgresQueryBuilder::prepare_table_rename_statement", key="PostgresQueryBuilder::prepare_table_rename_statement", comment="ALTER TABLE old RENAME TO new")
+    u.emit("}\n")
+
+
+INDEX_SPEC = r"""
+// ---- indexes and foreign keys -----------------------------------------------------------------------------------------------------
+pub uninterp spec fn iden_text(i: DynIden) -> Seq<char>;       // Iden::to_string of a custom index type name (written bare, by design)
+// key_part: col_name [(length)] [ASC | DESC]
+pub open spec fn idxcol_events(c: IndexColumn) -> Seq<Ev> {
+    seq![Ev::Iden(c.name), Ev::IdxColPrefix(c.prefix)] + (match c.order { Some(IndexOrder::Asc) => seq![lit(" ASC")], Some(IndexOrder::Desc) => seq![lit(" DESC")], None => emp() })
+}
+pub open spec fn idxcols_events(cs: Seq<IndexColumn>) -> Seq<Ev> { seq![lit("(")] + l_idxcols(cs) + seq![lit(")")] }
+pub open spec fn is_fulltext(t: Option<IndexType>) -> bool { t is Some && t->Some_0 is FullText }
+// MySQL: [PRIMARY | UNIQUE | FULLTEXT] flags in front of KEY / INDEX;  index_type: USING {BTREE | HASH}
+pub open spec fn idxprefix_mysql(c: IndexCreateStatement) -> Seq<Ev> {
+    (if c.primary { seq![lit("PRIMARY ")] } else { emp() }) + (if c.unique { seq![lit("UNIQUE ")] } else { emp() }) + (if is_fulltext(c.index_type) { seq![lit("FULLTEXT ")] } else { emp() })
+}
+pub open spec fn idxtype_mysql(t: Option<IndexType>) -> Seq<Ev> {
+    match t { Some(IndexType::BTree) => seq![lit(" USING "), Ev::Text("BTREE"@)], Some(IndexType::Hash) => seq![lit(" USING "), Ev::Text("HASH"@)],
+              Some(IndexType::Custom(c)) => seq![lit(" USING "), Ev::Text(iden_text(c))], _ => emp() }
+}
+// table-level (MySQL 15.1.20):  [PRIMARY | UNIQUE | FULLTEXT] KEY [index_name] [index_type] (key_part, ...)
+pub open spec fn tblindex_mysql(c: IndexCreateStatement) -> Seq<Ev> {
+    seq![Ev::IdxPrefix(c), lit("KEY ")] + (match c.index.name { Some(n) => seq![Ev::Name(n@), lit(" ")], None => emp() }) + seq![Ev::IdxType(c.index_type)]
+        + (if is_fulltext(c.index_type) { seq![lit(" ")] } else { emp() }) + seq![Ev::IdxCols(c.index.columns)]
+}
+// CREATE [UNIQUE | FULLTEXT] INDEX index_name ON tbl_name (key_part, ...) [index_type]      (MySQL 15.1.15)
+pub open spec fn idxcreate_mysql(c: IndexCreateStatement) -> Seq<Ev> {
+    seq![lit("CREATE "), Ev::IdxPrefix(c), lit("INDEX ")] + (match c.index.name { Some(n) => seq![Ev::Name(n@)], None => emp() }) + seq![lit(" ON ")]
+        + (match c.table { Some(t) => seq![Ev::TRef(t)], None => emp() }) + seq![lit(" "), Ev::IdxCols(c.index.columns), Ev::IdxType(c.index_type)]
+}
+// DROP INDEX index_name ON tbl_name     (MySQL 15.1.27; no IF EXISTS in MySQL: the renderer panics)
+pub open spec fn idxdrop_mysql(d: IndexDropStatement) -> Seq<Ev> {
+    seq![lit("DROP INDEX ")] + (match d.index.name { Some(n) => seq![Ev::Name(n@)], None => emp() }) + seq![lit(" ON ")] + (match d.table { Some(t) => seq![Ev::TRef(t)], None => emp() })
+}
+// PostgreSQL: table_constraint = [CONSTRAINT name] {UNIQUE [NULLS NOT DISTINCT] | PRIMARY KEY} (cols) [INCLUDE (cols)]
+pub open spec fn idxprefix_pg(c: IndexCreateStatement) -> Seq<Ev> {
+    (if c.primary { seq![lit("PRIMARY KEY ")] } else { emp() }) + (if c.unique { seq![lit("UNIQUE ")] } else { emp() })
+}
+pub open spec fn idxtype_pg(t: Option<IndexType>) -> Seq<Ev> {
+    match t { Some(IndexType::BTree) => seq![lit(" USING "), Ev::Text("BTREE"@)], Some(IndexType::FullText) => seq![lit(" USING "), Ev::Text("GIN"@)], Some(IndexType::Hash) => seq![lit(" USING "), Ev::Text("HASH"@)],
+              Some(IndexType::Custom(c)) => seq![lit(" USING "), Ev::Text(iden_text(c))], None => emp() }
+}
+pub open spec fn tblindex_pg(c: IndexCreateStatement) -> Seq<Ev> {
+    (match c.index.name { Some(n) => seq![lit("CONSTRAINT "), Ev::Name(n@), lit(" ")], None => emp() }) + seq![Ev::IdxPrefix(c)]
+        + (if c.nulls_not_distinct { seq![lit("NULLS NOT DISTINCT ")] } else { emp() }) + seq![Ev::IdxCols(c.index.columns)]
+        + (if c.include_columns@.len() > 0 { seq![lit(" "), Ev::Include(c.include_columns)] } else { emp() })
+}
+// CREATE [UNIQUE] INDEX [IF NOT EXISTS] name ON table [USING method] (cols) [INCLUDE (cols)] [NULLS NOT DISTINCT] [WHERE predicate]
+pub open spec fn idxcreate_pg(c: IndexCreateStatement) -> Seq<Ev> {
+    seq![lit("CREATE "), Ev::IdxPrefix(c), lit("INDEX ")] + (if c.if_not_exists { seq![lit("IF NOT EXISTS ")] } else { emp() })
+        + (match c.index.name { Some(n) => seq![Ev::Name(n@)], None => emp() }) + seq![lit(" ON ")] + (match c.table { Some(t) => seq![Ev::TRef(t)], None => emp() })
+        + seq![Ev::IdxType(c.index_type), lit(" "), Ev::IdxCols(c.index.columns)]
+        + (if c.include_columns@.len() > 0 { seq![lit(" "), Ev::Include(c.include_columns)] } else { emp() })
+        + (if c.nulls_not_distinct { seq![lit(" NULLS NOT DISTINCT")] } else { emp() }) + seq![Ev::Filter(c.r#where)]
+}
+// DROP INDEX [IF EXISTS] [schema.]name
+pub open spec fn idxdrop_pg(d: IndexDropStatement) -> Seq<Ev> {
+    seq![lit("DROP INDEX ")] + (if d.if_exists { seq![lit("IF EXISTS ")] } else { emp() })
+        + (match d.table { Some(TableRef::SchemaTable(sch, _)) => seq![Ev::Iden(sch), lit(".")], _ => emp() })
+        + (match d.index.name { Some(n) => seq![Ev::Name(n@)], None => emp() })
+}
+// foreign keys.  reference_definition: REFERENCES tbl_name (key_part, ...) [ON DELETE reference_option] [ON UPDATE reference_option]
+pub open spec fn fk_mid(k: TableForeignKey) -> Seq<Ev> { seq![lit(") REFERENCES ")] + (match k.ref_table { Some(t) => seq![Ev::TRef(t)], None => emp() }) + seq![lit(" (")] }
+pub open spec fn fk_end(k: TableForeignKey) -> Seq<Ev> {
+    seq![lit(")")] + (match k.on_delete { Some(a) => seq![lit(" ON DELETE "), Ev::FkAction(a)], None => emp() }) + (match k.on_update { Some(a) => seq![lit(" ON UPDATE "), Ev::FkAction(a)], None => emp() })
+}
+pub open spec fn fk_tail(k: TableForeignKey) -> Seq<Ev> { l_idens(k.columns@) + fk_mid(k) + l_idens(k.ref_columns@) + fk_end(k) }
+pub proof fn lemma_fk_compose(t0: Seq<Ev>, pre: Seq<Ev>, tc: Seq<Ev>, tr2: Seq<Ev>, tr: Seq<Ev>, k: TableForeignKey)
+    requires tc == t0 + pre, tr2 == tc + l_idens(k.columns@) + fk_mid(k), tr == tr2 + l_idens(k.ref_columns@) + fk_end(k)
+    ensures tr == t0 + (pre + fk_tail(k))
+{ assert(tr =~= t0 + (pre + fk_tail(k))); }
+pub open spec fn fk_head(t: Option<TableRef>, mode: Mode) -> Seq<Ev> {
+    (if mode == Mode::Alter { seq![lit("ALTER TABLE ")] + (match t { Some(t) => seq![Ev::TRef(t)], None => emp() }) + seq![lit(" ")] } else { emp() })
+}
+// MySQL: ALTER TABLE tbl ADD [CONSTRAINT [symbol]] FOREIGN KEY (col, ...) reference_definition;  in CREATE TABLE without ADD
+pub open spec fn fkpre_mysql(c: ForeignKeyCreateStatement, mode: Mode) -> Seq<Ev> {
+    fk_head(c.foreign_key.table, mode) + (if mode != Mode::Creation { seq![lit("ADD ")] } else { emp() }) + seq![lit("CONSTRAINT ")]
+        + (match c.foreign_key.name { Some(n) => seq![Ev::Name(n@)], None => emp() }) + seq![lit(" FOREIGN KEY (")]
+}
+pub open spec fn fkcreate_mysql(c: ForeignKeyCreateStatement, mode: Mode) -> Seq<Ev> { fkpre_mysql(c, mode) + fk_tail(c.foreign_key) }
+pub open spec fn fkdrop_mysql(d: ForeignKeyDropStatement, mode: Mode) -> Seq<Ev> {
+    fk_head(d.table, mode) + seq![lit("DROP FOREIGN KEY ")] + (match d.foreign_key.name { Some(n) => seq![Ev::Name(n@)], None => emp() })
+}
+// PostgreSQL: ALTER TABLE tbl ADD [CONSTRAINT name] FOREIGN KEY (col, ...) REFERENCES ..;  DROP CONSTRAINT name
+pub open spec fn fkpre_pg(c: ForeignKeyCreateStatement, mode: Mode) -> Seq<Ev> {
+    fk_head(c.foreign_key.table, mode) + (if mode != Mode::Creation { seq![lit("ADD ")] } else { emp() })
+        + (match c.foreign_key.name { Some(n) => seq![lit("CONSTRAINT "), Ev::Name(n@), lit(" ")], None => emp() }) + seq![lit("FOREIGN KEY (")]
+}
+pub open spec fn fkcreate_pg(c: ForeignKeyCreateStatement, mode: Mode) -> Seq<Ev> { fkpre_pg(c, mode) + fk_tail(c.foreign_key) }
+pub open spec fn fkdrop_pg(d: ForeignKeyDropStatement, mode: Mode) -> Seq<Ev> {
+    fk_head(d.table, mode) + seq![lit("DROP CONSTRAINT ")] + (match d.foreign_key.name { Some(n) => seq![Ev::Name(n@)], None => emp() })
+}
+pub open spec fn fkaction_text(a: ForeignKeyAction) -> &'static str {
+    match a { ForeignKeyAction::Restrict => "RESTRICT", ForeignKeyAction::Cascade => "CASCADE", ForeignKeyAction::SetNull => "SET NULL", ForeignKeyAction::NoAction => "NO ACTION", ForeignKeyAction::SetDefault => "SET DEFAULT" }
+}
+"""
+
+
+def fk_fn(u, path, block, owner, name, events, pre_fn, extra_req=""):
+    """foreign-key renderers: two comma-separated identifier lists (columns, referenced columns); staged through lemma_fk_compose"""
+    K = "create.foreign_key"
+    u.fn(path, block, name, props=P, key="%s::%s" % (owner, name), vpath="%s::%s" % (owner, name), prefix="#[verifier::rlimit(60)]\n    ",
+         rules=[r_dynw, r_fold, r_rawname, r_iden, r_semi, r_fmt, r_unit_tail],
+         spec="ensures\n    // [ALTER TABLE t] [ADD] [CONSTRAINT name] FOREIGN KEY (columns) REFERENCES table (columns) [ON DELETE ..] [ON UPDATE ..]: every column once, in call order\n    final(sql).tr() == old(sql).tr() + (%s)," % events,
+         loops=["invariant it1.index@ <= %s.columns@.len(), first == (it1.index@ == 0), sql.tr() == tc + l_idens(%s.columns@.subrange(0, it1.index@ as int))," % (K, K),
+                "invariant it2.index@ <= %s.ref_columns@.len(), first == (it2.index@ == 0), sql.tr() == tr2 + l_idens(%s.ref_columns@.subrange(0, it2.index@ as int))," % (K, K)],
+         proofs={"body-start": "let ghost t0 = sql.tr();",
+                 "before#1:let mut first = true;": "let ghost tc = sql.tr();\nproof { assert(tc =~= t0 + %s(*create, mode)); lemma_l_idens_empty(%s.columns@); assert(tc + emp() =~= tc); }" % (pre_fn, K),
+                 "loop1-end": "proof { lemma_l_idens_step(%s.columns@, it1.index@ as int); }" % K,
+                 "before#2:let mut first = true;": "let ghost tr2 = sql.tr();\nproof { lemma_l_idens_empty(%s.columns@); assert(tr2 =~= tc + l_idens(%s.columns@) + fk_mid(%s)); lemma_l_idens_empty(%s.ref_columns@); assert(tr2 + emp() =~= tr2); }" % (K, K, K, K),
+                 "loop2-end": "proof { lemma_l_idens_step(%s.ref_columns@, it2.index@ as int); }" % K,
+                 "body-end": "proof { lemma_l_idens_empty(%s.ref_columns@); assert(sql.tr() =~= tr2 + l_idens(%s.ref_columns@) + fk_end(%s)); lemma_fk_compose(t0, %s(*create, mode), tc, tr2, sql.tr(), %s); }" % (K, K, K, pre_fn, K)})
+
+
+def index_fk(u):
+    u.spec(list_fns("l_idxcols", "IndexColumn", "idxcol_events(%s)", "multi"), "schema::index-lists", props=P)
+    u.spec(INDEX_SPEC, "schema::index-fk-spec", props=P)
+    common_abs = (abstract("prepare_iden", "x: &DynIden", "Ev::Iden(*x)") + abstract("prepare_name", "x: &String", "Ev::Name(x@)") + abstract("prepare_index_prefix", "x: &IndexCreateStatement", "Ev::IdxPrefix(*x)")
+                  + abstract("prepare_index_columns", "x: &Vec<IndexColumn>", "Ev::IdxCols(*x)") + abstract("prepare_index_type", "x: &Option<IndexType>", "Ev::IdxType(*x)")
+                  + abstract("prepare_table_ref_index_stmt", "x: &TableRef", "Ev::TRef(*x)") + abstract("prepare_table_ref_fk_stmt", "x: &TableRef", "Ev::TRef(*x)")
+                  + abstract("prepare_filter", "x: &ConditionHolder", "Ev::Filter(*x)") + abstract("prepare_foreign_key_action", "x: &ForeignKeyAction", "Ev::FkAction(*x)")
+                  + abstract("write_column_index_prefix", "x: &Option<u32>", "Ev::IdxColPrefix(*x)") + abstract("prepare_table_ref_iden", "x: &TableRef", "Ev::TRefIden(*x)")
+                  + "    #[verifier::external_body]\n    fn viden_string(x: &DynIden) -> (r: String) ensures r@ == iden_text(*x) { unimplemented!() }\n"
+                  + "    #[verifier::external_body]\n    fn vstr_owned(x: &str) -> (r: String) ensures r@ == x@ { unimplemented!() }\n")
+    r_owned = make_r_sub("R-strfn", r'"(\w+)"\.to_owned\(\)', r'Self::vstr_owned("\1")')
+    r_custom = make_r_sub("R-strfn", r"custom\.to_string\(\)", "Self::viden_string(custom)")
+    r_cols = make_r_sub("R-slice", r"&create\.index\.columns", "&create.index.columns", min_count=0)
+    # ---- shared defaults (IndexBuilder / ForeignKeyBuilder traits) ----------------------------------------------------------------------
+    u.emit("pub struct DfltI;\nimpl DfltI {\n")
+    u.spec(common_abs, "schema::abstract-sub-renderers(index defaults)", props=P)
+    simple(u, IB, "trait IndexBuilder", "write_column_index_prefix", 'match *col_prefix { Some(p) => seq![lit(" ("), Ev::U32(p), lit(")")], None => emp() }', [r_dynw, r_fmt], "DfltI::write_column_index_prefix_impl",
+           key="IndexBuilder::write_column_index_prefix", rename="write_column_index_prefix_impl", comment="(length) after the column name")
+    simple(u, IB, "trait IndexBuilder", "prepare_index_columns", "idxcols_events(columns@)", [r_dynw, make_r_sub("R-slice", r"columns: &\[IndexColumn\]", "columns: &Vec<IndexColumn>"), r_fold, r_iden, r_semi, r_fmt], "DfltI::prepare_index_columns_impl",
+           key="IndexBuilder::prepare_index_columns", rename="prepare_index_columns_impl", comment="( key_part [, key_part] ... ): every column once, in call order, with its prefix length and direction",
+           loops=["invariant it1.index@ <= columns@.len(), first == (it1.index@ == 0), sql.tr() == tc + l_idxcols(columns@.subrange(0, it1.index@ as int)),"],
+           extra_proofs={"before#1:let mut first = true;": "let ghost tc = sql.tr();\nproof { lemma_l_idxcols_empty(columns@); assert(tc + emp() =~= tc); }",
+                         "loop1-start": "let ghost tl = sql.tr();",
+                         "loop1-end": "proof { lemma_l_idxcols_step(columns@, it1.index@ as int); assert(sql.tr() =~= (if it1.index@ == 0 { tl } else { tl.push(lit(\", \")) }) + idxcol_events(*col)); }"},
+           pre="lemma_l_idxcols_empty(columns@);")
+    simple(u, FB, "trait ForeignKeyBuilder", "prepare_foreign_key_action", "seq![lit(fkaction_text(*foreign_key_action))]", [r_dynw, r_fmt], "DfltI::prepare_foreign_key_action_impl",
+           key="ForeignKeyBuilder::prepare_foreign_key_action", rename="prepare_foreign_key_action_impl")
+    u.emit("}\n")
+    # ---- MySQL -----------------------------------------------------------------------------------------------------------------------------
+    MI, MF = "src/backend/mysql/index.rs", "src/backend/mysql/foreign_key.rs"
+    BI, BF = "impl IndexBuilder for MysqlQueryBuilder", "impl ForeignKeyBuilder for MysqlQueryBuilder"
+    u.emit("pub struct MysqlQueryBuilderI;\nimpl MysqlQueryBuilderI {\n")
+    u.spec(common_abs, "schema::abstract-sub-renderers(mysql index)", props=P)
+    O = "MysqlQueryBuilderI"
+    r_panic_ns = make_r_sub("R-panic", r'panic!\("Not supported"\)', "vpanic()")
+    simple(u, MI, BI, "prepare_index_prefix", "idxprefix_mysql(*create)", [r_dynw, r_fmt], O + "::prepare_index_prefix_impl", key="MysqlQueryBuilder::prepare_index_prefix", rename="prepare_index_prefix_impl")
+    simple(u, MI, BI, "prepare_index_type", "idxtype_mysql(*col_index_type)", [r_dynw, r_owned, r_custom, make_r_sub("R-panic", r"unreachable!\(\)", "({ vpanic(); Self::vstr_owned(\"\") })"), r_semi, r_fmt], O + "::prepare_index_type_impl",
+           key="MysqlQueryBuilder::prepare_index_type", rename="prepare_index_type_impl", comment="USING BTREE | HASH | <custom>; FULLTEXT is a prefix keyword in MySQL, not an index type")
+    simple(u, MI, BI, "prepare_table_index_expression", "tblindex_mysql(*create)", [r_dynw, r_rawname, r_fmt], O + "::prepare_table_index_expression", key="MysqlQueryBuilder::prepare_table_index_expression",
+           comment="[PRIMARY | UNIQUE | FULLTEXT] KEY [name] [USING type] (columns)")
+    simple(u, MI, BI, "prepare_index_create_statement", "idxcreate_mysql(*create)", [r_dynw, r_rawname, r_fmt], O + "::prepare_index_create_statement", key="MysqlQueryBuilder::prepare_index_create_statement")
+    simple(u, MI, BI, "prepare_index_drop_statement", "idxdrop_mysql(*drop)", [r_dynw, r_rawname, make_r_sub("R-panic", r'panic!\("Mysql does not support IF EXISTS for DROP INDEX"\)', "vpanic()"), r_fmt],
+           O + "::prepare_index_drop_statement", key="MysqlQueryBuilder::prepare_index_drop_statement", requires="!drop.if_exists")
+    simple(u, MI, BI, "prepare_table_ref_index_stmt", "seq![Ev::TRefIden(*table_ref)]", [r_dynw, r_panic_ns], O + "::prepare_table_ref_index_stmt_impl", key="MysqlQueryBuilder::prepare_table_ref_index_stmt",
+           rename="prepare_table_ref_index_stmt_impl", requires="*table_ref is Table")
+    simple(u, MF, BF, "prepare_table_ref_fk_stmt", "seq![Ev::TRefIden(*table_ref)]", [r_dynw, r_panic_ns], O + "::prepare_table_ref_fk_stmt_impl", key="MysqlQueryBuilder::prepare_table_ref_fk_stmt",
+           rename="prepare_table_ref_fk_stmt_impl", requires="*table_ref is Table")
+    simple(u, MF, BF, "prepare_foreign_key_drop_statement_internal", "fkdrop_mysql(*drop, mode)", [r_dynw, r_rawname, r_fmt], O + "::prepare_foreign_key_drop_statement_internal", key="MysqlQueryBuilder::prepare_foreign_key_drop_statement_internal")
+    fk_fn(u, MF, BF, O, "prepare_foreign_key_create_statement_internal", "fkcreate_mysql(*create, mode)", "fkpre_mysql")
+    u.emit("}\n")
+    # ---- PostgreSQL ------------------------------------------------------------------------------------------------------------------------
+    PI, PF = "src/backend/postgres/index.rs", "src/backend/postgres/foreign_key.rs"
+    BI, BF = "impl IndexBuilder for PostgresQueryBuilder", "impl ForeignKeyBuilder for PostgresQueryBuilder"
+    u.emit("pub struct PostgresQueryBuilderI;\nimpl PostgresQueryBuilderI {\n")
+    u.spec(common_abs + abstract("prepare_include_columns", "x: &Vec<DynIden>", "Ev::Include(*x)") + abstract("prepare_condition", "x: &ConditionHolder, kw: &str", "Ev::Cond(kw@, *x)"), "schema::abstract-sub-renderers(postgres index)", props=P)
+    O = "PostgresQueryBuilderI"
+    simple(u, PI, BI, "prepare_index_prefix", "idxprefix_pg(*create)", [r_dynw, r_fmt], O + "::prepare_index_prefix_impl", key="PostgresQueryBuilder::prepare_index_prefix", rename="prepare_index_prefix_impl")
+    simple(u, PI, BI, "prepare_index_type", "idxtype_pg(*col_index_type)", [r_dynw, r_owned, r_custom, r_semi, r_fmt], O + "::prepare_index_type_impl", key="PostgresQueryBuilder::prepare_index_type", rename="prepare_index_type_impl",
+           comment="USING BTREE | GIN (full text) | HASH | <custom>")
+    simple(u, PI, BI, "prepare_table_index_expression", "tblindex_pg(*create)", [r_dynw, r_rawname, r_fmt], O + "::prepare_table_index_expression", key="PostgresQueryBuilder::prepare_table_index_expression",
+           comment="[CONSTRAINT name] {PRIMARY KEY | UNIQUE [NULLS NOT DISTINCT]} (columns) [INCLUDE (columns)]")
+    simple(u, PI, BI, "prepare_index_create_statement", "idxcreate_pg(*create)", [r_dynw, r_rawname, r_fmt], O + "::prepare_index_create_statement", key="PostgresQueryBuilder::prepare_index_create_statement")
+    simple(u, PI, BI, "prepare_index_drop_statement", "idxdrop_pg(*drop)", [r_dynw, r_rawname, r_iden, r_panic_ns, r_fmt], O + "::prepare_index_drop_statement", key="PostgresQueryBuilder::prepare_index_drop_statement",
+           requires="drop.table is Some ==> (drop.table->Some_0 is Table) || (drop.table->Some_0 is SchemaTable)", t0_extra=" let ghost d_ = *drop;", pre="assert(d_ == *drop);")
+    simple(u, PI, BI, "prepare_filter", 'seq![Ev::Cond("WHERE"@, *condition)]', [r_dynw], O + "::prepare_filter_impl", key="PostgresQueryBuilder::prepare_filter", rename="prepare_filter_impl", comment="partial index predicate")
+    simple(u, PI, "impl PostgresQueryBuilder", "prepare_include_columns", 'seq![lit("INCLUDE (")] + l_idens(columns@) + seq![lit(")")]',
+           [r_dynw, make_r_sub("R-slice", r"columns: &\[SeaRc<dyn Iden>\]", "columns: &Vec<DynIden>"), r_fold, r_iden, r_semi, r_fmt], O + "::prepare_include_columns_impl", key="PostgresQueryBuilder::prepare_include_columns",
+           rename="prepare_include_columns_impl",
+           loops=["invariant it1.index@ <= columns@.len(), first == (it1.index@ == 0), sql.tr() == tc + l_idens(columns@.subrange(0, it1.index@ as int)),"],
+           extra_proofs={"before#1:let mut first = true;": "let ghost tc = sql.tr();\nproof { lemma_l_idens_empty(columns@); assert(tc + emp() =~= tc); }",
+                         "loop1-end": "proof { lemma_l_idens_step(columns@, it1.index@ as int); }"},
+           pre="lemma_l_idens_empty(columns@);")
+    simple(u, PI, BI, "prepare_table_ref_index_stmt", "seq![Ev::TRefIden(*table_ref)]", [r_dynw, r_panic_ns], O + "::prepare_table_ref_index_stmt_impl", key="PostgresQueryBuilder::prepare_table_ref_index_stmt",
+           rename="prepare_table_ref_index_stmt_impl", requires="(*table_ref is Table) || (*table_ref is SchemaTable)")
+    simple(u, PF, BF, "prepare_table_ref_fk_stmt", "seq![Ev::TRefIden(*table_ref)]", [r_dynw, r_panic_ns], O + "::prepare_table_ref_fk_stmt_impl", key="PostgresQueryBuilder::prepare_table_ref_fk_stmt",
+           rename="prepare_table_ref_fk_stmt_impl", requires="(*table_ref is Table) || (*table_ref is SchemaTable) || (*table_ref is DatabaseSchemaTable)")
+    simple(u, PF, BF, "prepare_foreign_key_drop_statement_internal", "fkdrop_pg(*drop, mode)", [r_dynw, r_rawname, r_fmt], O + "::prepare_foreign_key_drop_statement_internal", key="PostgresQueryBuilder::prepare_foreign_key_drop_statement_internal")
+    fk_fn(u, PF, BF, O, "prepare_foreign_key_create_statement_internal", "fkcreate_pg(*create, mode)", "fkpre_pg")
     u.emit("}\n")
